@@ -697,6 +697,26 @@ func TestC05(t *testing.T) {
 		c.Event("timeout_scenarios", 1)
 	})
 
+	// 4d. the transport is a multi-stream association (in-memory backend behind diam.SCTPConn):
+	//     three or more streams carry message sequences whose chunks interleave; per stream the
+	//     same sequence of messages comes out, whatever the interleaving (the oracle of C19)
+	big := []int{0, 12, 100, 1000, 1024, 1028, 5000}
+	rec.Suite("sctp-association", rec.N(60, 6000), func(c *ev.Case) {
+		ns := 3 + c.R.IntN(4)
+		cc := c19Build(c, ns, 4, 5, big)
+		c.Class("sctp-association/streams=%d", ns)
+		m := cc.randomMerge(c)
+		good := true
+		leak := runBubbleWD(t, rec, c, 60*time.Second, func() { good = runC19(c, ctx, cc, m, c.I%2 == 0, false, 0) })
+		if leak != "" && !c.Failed() {
+			c.Fail(ev.Sig{"op": "bubble-leak"}, nil, nil, "goroutines left blocked: %s", leak)
+		}
+		if good {
+			c.Event("conn_streams", 1)
+			c.Event("sctp_associations", 1)
+		}
+	})
+
 	// 5. thorough: loopback TCP with TCP_NODELAY writes of the fragments
 	if !rec.Quick() {
 		rec.Suite("tcp", 300, func(c *ev.Case) { tcpStream(c, ctx) })
